@@ -341,6 +341,22 @@ def dealiased(fn):
     return out
 
 
+def _rename_locals(node, ids):
+    """copy of node with the locals whose declaration id is in ids renamed (declarations and references)"""
+    if not isinstance(node, dict):
+        return node
+    out = dict(node)
+    if node.get('kind') == 'VarDecl' and node.get('id') in ids:
+        out['name'] = ids[node['id']]
+    if node.get('kind') == 'DeclRefExpr' and (node.get('referencedDecl') or {}).get('id') in ids:
+        rd = dict(node['referencedDecl'])
+        rd['name'] = ids[rd['id']]
+        out['referencedDecl'] = rd
+    if 'inner' in node:
+        out['inner'] = [_rename_locals(c, ids) for c in node['inner']]
+    return out
+
+
 def _returns(node):
     return [x for x in walk(node) if x.get('kind') == 'ReturnStmt']
 
@@ -412,6 +428,8 @@ def inline_new_helpers(tu, fn, is_new, depth=3):
     if not helpers:
         return fn
 
+    uses = {}
+
     def pmap_for(h, call):
         ps = params(h)
         args = call_args(call)
@@ -456,9 +474,20 @@ def inline_new_helpers(tu, fn, is_new, depth=3):
                 if pm is not None and sh[0] in ('void', 'value') and not (sh[0] == 'void' and how != 'stmt'):
                     cl = call.get('_line') or s.get('_line') or st.get('_line')
                     body_items = [_subst(x, pm, cl) for x in sh[1]]
+                    val_src = sh[2] if sh[0] == 'value' else None
+                    # a helper spliced in more than once: its locals get a name of their own per call site, so that three
+                    # inlined `double m = 0; for (..) m += ..; return m;` stay three accumulators
+                    uses[callee_name(call)] = uses.get(callee_name(call), 0) + 1
+                    ncalls = sum(1 for x_ in walk(fn) if x_.get('kind') == 'CallExpr' and callee_name(x_) == callee_name(call))
+                    if ncalls > 1:
+                        ids = {d_['id']: '%s__%d' % (d_['name'], uses[callee_name(call)]) for it_ in sh[1] for d_ in walk(it_) if d_.get('kind') == 'VarDecl' and d_.get('id')}
+                        if ids:
+                            body_items = [_rename_locals(x, ids) for x in body_items]
+                            if val_src is not None:
+                                val_src = _rename_locals(val_src, ids)
                     res.extend(stmt_list(body_items))
                     if sh[0] == 'value':
-                        val = _subst(sh[2], pm, cl)
+                        val = _subst(val_src, pm, cl)
                         if how == 'assign':
                             n2 = dict(s)
                             n2['inner'] = [s['inner'][0], val]
